@@ -314,6 +314,53 @@ class Ctx:
         shutil.rmtree(self.scratch, ignore_errors=True)
 
 
+def validate_trace(ctx, module, cfg_text, trace_file, events, is_new, files=None, max_rounds=60, max_fail=6, timeout=1200,
+                   layerp=("LayerP",), dfs=False):
+    """Validate concatenated traces with TLC.  The trace spec must keep `bad` (line of the first Layer-P failure, 0 if
+    none) and `why` (string) variables and print drift as <<"VP:drift", l>>.  A trace whose Layer-P invariant fails is
+    reported and removed, and validation continues with the rest (nothing is left unexamined).
+    Returns (failures, result, drift_lines, ntraces): failures = [{"header":ev,"events":[..],"bad_index":i,"why":s}]"""
+    remaining = list(events)
+    failures = []
+    drifts = 0
+    ntr = sum(1 for e in events if is_new(e))
+    r = None
+    for _ in range(max_rounds):
+        if not remaining:
+            break
+        ctx.write_ndjson(trace_file, remaining)
+        r = ctx.tlc(module, cfg_text, workers=1, files=files, timeout=timeout, dfs=dfs)
+        drifts = len(re.findall(r'VP:drift', r.out))
+        if r.ok:
+            break
+        if r.invariant not in layerp:
+            raise Machinery("trace validation of %s failed outside Layer P (%s):\n%s" % (module, r.invariant, r.out[-3000:]))
+        m = re.findall(r"/\\ bad = (\d+)", r.out)
+        bads = [int(x) for x in m if int(x) > 0]
+        if not bads:
+            raise Machinery("cannot locate the failing event:\n" + r.out[-2000:])
+        bad = bads[-1]
+        w = re.findall(r'/\\ why = "([^"]*)"', r.out)
+        why = w[-1] if w else ""
+        start = max(i for i in range(bad) if is_new(remaining[i]))
+        end = next((i for i in range(start + 1, len(remaining)) if is_new(remaining[i])), len(remaining))
+        failures.append({"header": remaining[start], "events": remaining[start + 1:end], "bad_index": bad - 1 - start, "why": why})
+        remaining = remaining[:start] + remaining[end:]
+        if len(failures) >= max_fail:
+            ctx.notes["trace_validation_truncated"] = "stopped after %d failing traces; %d events left unvalidated" % (len(failures), len(remaining))
+            break
+    return failures, r, drifts, ntr
+
+
+def negative_control(ctx, module, cfg_text, trace_file, events, files=None, layerp=("LayerP",)):
+    """A corrupted trace must be rejected by Layer P; otherwise the binding is vacuous (machinery error)."""
+    ctx.write_ndjson(trace_file, events)
+    r = ctx.tlc(module, cfg_text, workers=1, files=files, timeout=600)
+    if r.ok or r.invariant not in layerp:
+        raise Machinery("negative control for %s was not rejected by Layer P (ok=%s inv=%s)\n%s" % (module, r.ok, r.invariant, r.out[-1500:]))
+    return True
+
+
 def load_findings(prop):
     p = os.path.join(VERIF, "known_findings.jsonl")
     out = []
